@@ -1,4 +1,5 @@
 import Ecal.Lemmas.Cascade
+import Ecal.Gen.C02
 /-!
 # C02 — waiting on an event returns after its whole cascade, with exactly its errors
 
@@ -736,6 +737,47 @@ theorem failed_is_history {s s' : State} {e : Event} (hs : step s e = some s') {
   | allErrors =>
     simp only [step] at hs
     cases hs; exact same rfl
+
+/-! ### source facts (regenerated from the tree under test on every run: `lean/Ecal/Gen/C02.lean`)
+
+What ties the granularity of the model's events to the Go text: each fact is computed by the go/ast
+extractor `harness C02 -tool facts` (three-valued) and has to be `some true`. -/
+
+def srcFact (n : String) : Option Bool := (Ecal.Gen.C02.facts.find? (·.1 == n)).bind (·.2)
+
+/-- `descendantFinished` decrements `unfinished` and evaluates the zero test inside ONE critical
+    section of the root's lock (`finishOne` is one event) -/
+theorem src_zero_test_inside_critical_section : srcFact "zeroTestInsideCriticalSection" = some true := by decide
+/-- … and calls `PostEvent` after the lock was released (`post` is a separate event) -/
+theorem src_post_outside_critical_section : srcFact "postOutsideCriticalSection" = some true := by decide
+/-- every write of `unfinished` in package engine happens under the root's lock (`newChild`, `finishOne` are atomic) -/
+theorem src_counter_writes_under_lock : srcFact "counterWritesUnderLock" = some true := by decide
+/-- `SetErrors` attaches the error object before it enters the monitor into `RootMonitor.errors`
+    (`setErrors` is one event; `allErrors_safe` has no nil entry) -/
+theorem src_error_attached_before_registered : srcFact "errorAttachedBeforeRegistered" = some true := by decide
+/-- `Finish`: `finished = true`, then `descendantFinished` -/
+theorem src_finished_flag_before_count : srcFact "finishedFlagBeforeCount" = some true := by decide
+/-- `Task.Run` finishes the monitor only after `ProcessEvent` returned (guard of `newChild`) -/
+theorem src_finish_after_process_event : srcFact "finishAfterProcessEvent" = some true := by decide
+/-- `Task.HandleError`: `SetErrors`, `Finish`, error observer — in this order -/
+theorem src_handle_error_order : srcFact "handleErrorOrder" = some true := by decide
+/-- `AddEventAndWait`: observer registered, then `AddEvent`, then `wg.Wait` (`register` needs a fresh root) -/
+theorem src_wait_observer_before_add_event : srcFact "waitObserverBeforeAddEvent" = some true := by decide
+/-- `AddEvent`: `IsTriggering`, finish-handler observer, `Activate`, `pool.AddTask` — in this order
+    (`regHandler` before `addEvent 0 true`) -/
+theorem src_handler_observer_before_add_task : srcFact "handlerObserverBeforeAddTask" = some true := by decide
+/-- `newMonID` reads and increments the id counter in one critical section (monitor ids are distinct) -/
+theorem src_monitor_id_alloc_in_critical_section : srcFact "monitorIdAllocInCriticalSection" = some true := by decide
+/-- `AllErrors` reads the error map under the root's lock -/
+theorem src_all_errors_under_lock : srcFact "allErrorsUnderLock" = some true := by decide
+/-- `AllErrors` calls no asserting accessor (`Errors()`, `EventPath()`, `AssertTrue`, …): the Go
+    function has no failing branch, as `Ecal.Cascade.allErrors` (da28f66) -/
+theorem src_all_errors_calls_no_asserting_accessor :
+    Ecal.Gen.C02.allErrorsCalls.all (fun c =>
+      !(["Errors", "EventPath", "EventPathString", "AssertTrue", "AssertOk", "String", "Error", "panic"].contains c)) = true := by
+  decide
+/-- `EventPump.PostEvent` calls only callbacks registered for the posting source (or for all sources) -/
+theorem src_post_filters_by_source : srcFact "postFiltersBySource" = some true := by decide
 
 /-! ### several cascades in flight -/
 
